@@ -48,7 +48,7 @@ def one(d):
     finally:
         slots.put(wt)
 ids = sys.argv[1:]
-dirs = [os.path.join(V, "seeded", i) for i in ids] if ids else sorted(glob.glob(os.path.join(V, "seeded/C*-[a-z]")))
+dirs = [os.path.join(V, "seeded", i) for i in ids] if ids else sorted(glob.glob(os.path.join(V, "seeded/C*-[a-z]*")))
 bad = []
 with ThreadPoolExecutor(PAR) as ex:
     for r in ex.map(one, dirs):
